@@ -2,6 +2,7 @@ package main
 
 import (
 	"fmt"
+	"go/constant"
 	"regexp"
 	"sort"
 	"strings"
@@ -39,7 +40,8 @@ func init() {
 				guardRe("block hash equals the verified header's hash", `^true\(bytes\.Equal\(res\.Block\.Hash\(\), `+lb(h)+`\.SignedHeader\.Header\.Hash\(\)\)\)$`),
 			}
 		}
-		resultsH := `\(&?\w+ \+ 1\)`
+		// the height asked of the node (a local, or the result of a helper that picks it) + 1
+		resultsH := `\((?:&?\w+|c\.\w+\(ctx, height\)#0) \+ 1\)`
 		methods := []method{
 			{"Client.Block", blockGs()},
 			{"Client.BlockByHash", blockGs()},
@@ -50,7 +52,7 @@ func init() {
 			}},
 			{"Client.BlockResults", []Guard{
 				upd(resultsH),
-				guardRe("results hash (as the state machine computes it) equals LastResultsHash of the next verified header", `^true\(bytes\.Equal\(types\.NewResults\(res\.TxsResults\)\.Hash\(\), `+lb(resultsH)+`\.SignedHeader\.Header\.LastResultsHash\)\)$`),
+				guardRe("results hash (as the state machine computes it) equals LastResultsHash of the next verified header", `^true\(bytes\.Equal\(types\.NewResults\((?:res|c\.next\.BlockResults\(ctx, .*?\)#0)\.TxsResults\)\.Hash\(\), `+lb(resultsH)+`\.SignedHeader\.Header\.LastResultsHash\)\)$`),
 			}},
 			{"Client.ABCIQueryWithOptions", []Guard{
 				upd(`\(res\.Response\.Height \+ 1\)`),
@@ -212,11 +214,16 @@ func init() {
 		sort.Strings(names)
 		for _, n := range names {
 			f := byName[n]
-			usesNext := len(w.callsMatching(f, `^c\.next\.`)) > 0
+			usesNext := len(w.deepCallsMatching(f, 2, `^c\.next\.`)) > 0
 			if !usesNext {
 				continue
 			}
-			verifies := len(w.callsTo(f, "light/rpc#Client.updateLightClientIfNeededTo")) > 0
+			// a helper introduced later (unexported, not part of the client's interface) is judged through
+			// the methods that call it
+			if isNewFunc(f) && !f.Object().Exported() {
+				continue
+			}
+			verifies := len(w.deepCallsTo(f, 2, "light/rpc#Client.updateLightClientIfNeededTo")) > 0
 			if why, ok := passThrough[n]; ok {
 				c.OK("light/rpc.Client."+n+" passes through", w.pos(f.Pos()), "documented unverified: "+why)
 				continue
@@ -281,4 +288,91 @@ func init() {
 			c.Check(len(w.callsMatching(f, `\.Txs\.Hash\(\)$`)) == 1, "types.Data.Hash is the merkle root of the txs", w.pos(f.Pos()), "Txs.Hash()", "Data.Hash no longer uses Txs.Hash")
 		}
 	})
+}
+
+// ------------------------------------------------------------------ C20.R6
+// The key path of a proven query travels as a string: KeyPath.String (writer, used to build the path the
+// proof is checked against) and KeyPathToKeys (reader, inside ProofOperators.Verify) must be inverse
+// codecs. If the reader decodes with another scheme (e.g. query-unescape, which turns '+' into a space),
+// an honest proof for key "a+b" is refused and a proof for key "a b" is accepted as the answer for "a+b".
+func init() {
+	register("C20", "R6", "K5", "merkle key paths: the reader decodes each segment with the inverse of the writer's encoding, under the same prefix", 4, func(c *Ctx) {
+		w := c.W
+		wr := c.fn("crypto/merkle", "KeyPath.String")
+		rd := c.fn("crypto/merkle", "KeyPathToKeys")
+		if wr == nil || rd == nil {
+			return
+		}
+		inverse := map[string]string{"net/url.PathEscape": "net/url.PathUnescape", "net/url.QueryEscape": "net/url.QueryUnescape", "encoding/hex.EncodeToString": "encoding/hex.DecodeString"}
+		codecs := func(f *ssa.Function) map[string]ssa.Instruction {
+			out := map[string]ssa.Instruction{}
+			for _, di := range w.deepInstrs(f, 2) {
+				call, ok := di.in.(ssa.CallInstruction)
+				if !ok {
+					continue
+				}
+				d, ok := describeCallee(call)
+				if !ok {
+					continue
+				}
+				full := d.Pkg + "." + d.Name
+				if d.Pkg == "net/url" || d.Pkg == "encoding/hex" {
+					out[full] = call
+				}
+				// fmt.Sprintf("%X", bytes) is the hex writer
+				if d.Pkg == "fmt" && d.Name == "Sprintf" && len(call.Common().Args) > 0 {
+					if cst, isC := call.Common().Args[0].(*ssa.Const); isC && cst.Value != nil && (constant.StringVal(cst.Value) == "%X" || constant.StringVal(cst.Value) == "%x") {
+						out["encoding/hex.EncodeToString"] = call
+					}
+				}
+			}
+			return out
+		}
+		enc, dec := codecs(wr), codecs(rd)
+		c.Check(len(enc) == 2, funcKey(wr)+" :: writer codecs found (url, hex)", w.pos(wr.Pos()), "2", fmt.Sprintf("%d: %v", len(enc), sortedKeys(keysOf(enc))))
+		for e, at := range enc {
+			want, known := inverse[e]
+			if !c.Check(known, funcKey(wr)+" :: segment encoding "+e+" has a known inverse", w.ipos(at), "listed", "encoding "+e+" is not in the codec table") {
+				continue
+			}
+			_, has := dec[want]
+			c.Check(has, funcKey(rd)+" :: decodes "+e+" segments with "+want, w.pos(rd.Pos()), want, "the reader does not use "+want+" (it uses "+strings.Join(sortedKeys(keysOf(dec)), ", ")+"): keys containing characters the two schemes treat differently are proven under another key")
+		}
+		for d, at := range dec {
+			found := false
+			for e := range enc {
+				if inverse[e] == d {
+					found = true
+				}
+			}
+			c.Check(found, funcKey(rd)+" :: every decoding has its encoding in the writer", w.ipos(at), "paired", d+" has no matching encoder in KeyPath.String")
+		}
+		// the hex marker: the writer emits "/x:" and the reader recognises "x:" and skips exactly its length
+		wrHas, rdPrefix := false, ""
+		for _, b := range wr.Blocks {
+			for _, in := range b.Instrs {
+				for _, op := range in.Operands(nil) {
+					if cst, ok := (*op).(*ssa.Const); ok && cst.Value != nil && cst.Value.Kind() == constant.String && constant.StringVal(cst.Value) == "/x:" {
+						wrHas = true
+					}
+				}
+			}
+		}
+		for _, call := range callInstrs(rd) {
+			if d, ok := describeCallee(call); ok && d.Pkg == "strings" && d.Name == "HasPrefix" {
+				if cst, ok := call.Common().Args[1].(*ssa.Const); ok && cst.Value != nil {
+					rdPrefix = constant.StringVal(cst.Value)
+				}
+			}
+		}
+		c.Check(wrHas && rdPrefix == "x:", "crypto/merkle key path :: hex marker agrees (writer \"/x:\", reader \"x:\")", w.pos(rd.Pos()), "x:", "writer marker present="+fmt.Sprint(wrHas)+", reader prefix="+rdPrefix)
+	})
+}
+
+func keysOf(m map[string]ssa.Instruction) map[string]bool {
+	out := map[string]bool{}
+	for k := range m {
+		out[k] = true
+	}
+	return out
 }
